@@ -1,4 +1,7 @@
-import Proofs.Props.C01
+import Proofs.Lemmas.FwdDen
+import Proofs.Lemmas.TreeShape
+import Proofs.Lemmas.WFFwd
+import Proofs.Lemmas.DenMath
 import Proofs.Props.C02
 /-!
 # C02 ∘ C01: the returned gradient is the derivative of the *mathematical* function
@@ -19,8 +22,11 @@ the right shape -/
 theorem evalLast_eq_math {D L : Nat} {s : Stack} (hwf : WF.WFEval D L s) (x c : List ℝ)
     (hx : x.length = D) (hc : c.length = L) :
     Eval.evalLast s x c = MathSem.den x c (ETree.ofStack s) := by
-  obtain ⟨vs, hvs, _⟩ := C01.wf_fwd_some D L s x c hwf hx hc
-  rw [C01.evalLast_eq_den s x c vs hvs, C01.den_eq_math x c _ (C01.ofStack_arityOK s)]
+  -- the lemmas behind `C01.wf_fwd_some`, `C01.evalLast_eq_den`, `C01.den_eq_math`,
+  -- `C01.ofStack_arityOK`, used directly so that this file does not depend on the object-level
+  -- (erasure) obligations of C01
+  obtain ⟨vs, hvs, _⟩ := WFFwd.wf_fwd_some D L s x c hwf hx hc
+  rw [FwdDen.evalLast_eq_den s x c vs hvs, DenMath.den_eq_math x c _ (ETree.ofStack_arityOK s)]
 
 /-- `evaluate_with_derivative(..., wrt_x = True)`: value = the denoted function's value, gradient
 entry `j` = its partial derivative with respect to input column `j`. -/
